@@ -3,8 +3,9 @@ CONSTANTS
  BugDupChecks = FALSE  BugIterEmpty = FALSE  BugAppendTotal = FALSE
  NSlots = 2  MaxStreams = 3  MaxRecs = 2
  USizes <- TinyU  VSizes <- TinyV  Pads <- TinyP  FlagSet <- TinyF
+ CommonU <- NoValues  CommonV <- NoValues
  Volume = FALSE
- MinSteps = 1  MaxSteps = 3
+ MinSteps = 1  MaxSteps = 5
 VIEW View
 CONSTRAINT Emit
 CHECK_DEADLOCK FALSE
